@@ -59,7 +59,7 @@ PROPS = {
     "C03": {"level": "proof", "explanation": "lemma over contracts: (i) both engines refine EngineSpec for every primitive (proved), (ii) the element layer is verified against EngineSpec only (proved), (iii) to_function outputs the elements' next_states and takes exactly their symbols as inputs, for any number of elements (layout obligations at a generic element of every class), (iv) calling a casadi.Function substitutes arguments (assumed). SX and MX share every contract except _filter_vars (both branches verified).", "trusted_base": [T_VIEW, T_FUN, T_LAYOUT, T_SPINE, "floating point treated as real arithmetic"]},
     "C04": {"level": "proof", "explanation": "layout of arguments/results proved for a network with a symbolic number of links, origins and destinations of symbolic class by executing to_function, its helpers and Network.elements/states/... against the layout written from the property statement: per group and category one run over the elements in enumeration order (links, origins, destinations), every element contributing exactly its declared variables, named <key>_<name>, bound to its own symbols; results = next states in the same element/key order (+), of the size of their states; compact 1 = per-name stacks over the carriers, compact 2 = stacks of those; parameters last in declaration order. In addition five concrete spines are executed (exact order of the per-name groups, casadi.Function acceptance)", "trusted_base": [T_FUN, T_LAYOUT, T_SPINE]},
     "C05": {"level": "proof", "explanation": "extra outputs are, for any number of elements, Link.get_flow(engine) of every link then origin.get_flow(net, engine, **parameters, **other_parameters) of every origin, in enumeration order (per-element, stacked, or stacked together according to compact) - the same calls (same contract term) the queue update and the node inflow use; Link.get_flow = rho*v*lanes and the step_dynamics postconditions are proved", "trusted_base": [T_VIEW, T_FUN, T_LAYOUT, T_SPINE]},
-    "C06": {"level": "proof", "explanation": "is_valid is executed as a whole on a graph with a symbolic number of nodes, edges and attachments (not assumed valid). Loops are not unrolled: each body is summarised at a generic index (all paths) and the loop's effect is stated by a rule - msgs non-empty afterwards iff some iteration reports (witness / universal fact), with raises=True the loop raises iff some iteration raises, and the count dict satisfies the invariant count[o] = number of earlier slots holding o (prefix sum of indicators; every write is obliged to re-establish it). Postconditions, written from the documented list: valid => none of the nine conditions is violated at any edge/node (two generic holders never hold the same object; (2)-(9) at a generic node), invalid => an explicit witness violates one of them, InvalidNetworkError exactly when invalid, invalid => a message exists. The loop bodies are in addition checked item by item (valid_tasks.py) and the whole function is exercised by the bounded stand-in", "trusted_base": [T_NX, "python dict semantics of Network.origins/destinations (a repeated key keeps its last node) and the per-node link views (verified for C08) enter as the model of what is_valid iterates over", "loop rule: the effect of a loop is derived from the summary of its body at a generic index (pyvc/summary.py); finite-sum facts: lemma:sum-membership, lemma:sum-signs (induction, discharged by z3)"]},
+    "C06": {"level": "proof", "explanation": "is_valid is executed as a whole on a graph with a symbolic number of nodes, edges and attachments (not assumed valid). Loops are not unrolled: each body is summarised at a generic index (all paths) and the loop's effect is stated by a rule - msgs non-empty afterwards iff some iteration reports (witness / universal fact), with raises=True the loop raises iff some iteration raises, and the count dict satisfies the invariant count[o] = number of earlier slots holding o (prefix sum of indicators; every write is obliged to re-establish it). Postconditions, written from the documented list: valid => none of the nine conditions is violated at any edge/node (two generic holders never hold the same object; (2)-(9) at a generic node), invalid => an explicit witness violates one of them, InvalidNetworkError exactly when invalid, invalid => a message exists. The whole function is also exercised natively by the bounded stand-in", "trusted_base": [T_NX, "python dict semantics of Network.origins/destinations (a repeated key keeps its last node) and the per-node link views (verified for C08) enter as the model of what is_valid iterates over", "loop rule: the effect of a loop is derived from the summary of its body at a generic index (pyvc/summary.py); finite-sum facts: lemma:sum-membership, lemma:sum-signs (induction, discharged by z3)"]},
     "C07": {"level": "proof", "explanation": "safety half of all contracts: no exception, indices/keys/asserts, shapes (next state = state), engine primitives keep every partial operation inside its domain under their admissible precondition (both engines, all argument-shape configurations incl. the NumPy engine's own (1,) variables and exact zeros), and the element layer is proved to call them inside that precondition for every admissible state (positive parameters, non-negative states, excluding the model's own 0/0 cases)", "trusted_base": [T_VIEW, T_FUN, T_SPINE]},
     "C08": {"level": "proof", "explanation": "representation invariant: a cached lookup is either dropped by the mutator (the real invalidate_cache wrapper is interpreted) or cannot change because the graph regions it reads are disjoint from the regions the mutator writes; holds after every interleaving of mutators and reads (no bound on histories)", "trusted_base": [T_NX]},
     "C09": {"level": "proof", "explanation": "each add_* makes exactly the described networkx call (node, edge direction, attribute key, replace on an existing node); add_path is proved for paths of any length and content by a loop invariant (inv-init, inv-step for a generic iteration of either parity, summary): accepted iff at least three items alternating node-link-node and ending in a node, every node/link/origin/destination added exactly as described, and only Node items ever reach add_node/add_origin/add_destination; in addition every concrete path shape up to length 5 is executed", "trusted_base": [T_NX]},
